@@ -418,6 +418,11 @@ def rule_slots(ctx, R):
         for si, st in enumerate(blk["stmts"]):
             if st["k"] == "assign" and st["p"]["proj"] == ["deref"] and b.lty(st["p"]["l"]) == "&mut usize":
                 stores.append((roles.of_origin(org.of_rvalue(st["r"], bi, si)), st["span"]["at"]))
+    from .util import check_whole_loops
+    spec_calls = {bi for bi, t in b.calls() if (t["f"].get("resolved") or t["f"].get("def", "")).endswith("::opt_execute")}
+    from .util import loops_by_head
+    spec_loop_blocks = set().union(*[lp for h, lp in loops_by_head(cfg).items() if spec_calls & lp]) if spec_calls else set()
+    check_whole_loops(R, "optimize:slots:whole_program", b, cfg, "collection, slot allocation and rewriting go over all commands / all selectable stacks (a skipped element does not end the loop); only the speculation loop stops early", allowed=[lambda e: e[0] in spec_loop_blocks])
     # ... and only when the entry still holds the sentinel
     st_labs = []
     for bi, blk in enumerate(b.blocks):
@@ -685,3 +690,19 @@ def rule_window(ctx, R):
 
 
 RULES.append(("C02.WINDOW", "opt_execute executes inside the window [0, appended command]: never reads a command past the log (shared with C10.WINDOW)", rule_window))
+
+
+def _codeapi(ctx, R):
+    from . import p_c01
+    return p_c01.rule_codeapi(ctx, R)
+
+
+RULES.append(("C02.CODEAPI", "the words kind / syllable count / dot count / area count / area mean the fields of the command record: getters and constructors of UnOptCode and OptCode (shared with C01.CODEAPI)", _codeapi))
+
+
+def _streams(ctx, R):
+    from . import p_c01
+    return p_c01.rule_streams(ctx, R)
+
+
+RULES.append(("C02.STREAMS", "what `run` writes to its first writer reaches the process's standard output, its second the standard error (shared with C01.STREAMS)", _streams))
